@@ -1,16 +1,18 @@
 # run parameters and manifest texts of the C14 check (read by ../props.py)
-PROP = dict(
-    engine="stack", test="TestC14", level="exploration",
-    quick=dict(checks=400, shards=12, timeout=1200),
-    thorough=dict(checks=700, shards=14, timeout=3400),
-    rule="rapid draws 2-4 invocations on one instance; response and event sizes from {0, 1, limit/2, limit-2 .. limit+2, limit+4096} (limit = "
-         "6 MiB + 100) or small, in every position, contents zero/ascii/random; 0-1 extension. Oracle: response <= limit -> 202 and the exact "
-         "bytes at the caller; > limit -> 413 RequestEntityTooLarge to the runtime and a Function.ResponseSizeTooLarge JSON naming both sizes "
-         "to the caller; event > limit arrives as exactly the first limit bytes; no process is signalled or relaunched during the whole "
-         "sequence (the same environment keeps serving). Non-trivial: a size within +-2 of the limit in a position other than the last.",
-    assumptions=["fake process supervisor (DESIGN 3.4)"],
-    level_text="random search over sizes around the limit in every position of short invocation sequences against the real stack; the boundary "
-               "itself (limit-2 .. limit+2) is hit in most cases by construction.",
-    level_note="the streaming (direct invoke) response path has its own limit logic and is covered by C17",
-    technique="property-based testing (rapid): boundary-biased generated sizes, exact expected outcome per size",
-)
+PROP = {'engine': 'stack',
+ 'test': 'TestC14',
+ 'level': 'exploration',
+ 'quick': {'checks': 400, 'shards': 12, 'timeout': 1200},
+ 'thorough': {'checks': 700, 'shards': 14, 'timeout': 3400},
+ 'rule': 'rapid draws 2-4 invocations on one instance; response and event sizes from {0, 1, limit/2, limit-2 .. limit+2, limit+4096} (limit = 6 MiB '
+         '+ 100) or small, in every position, contents zero/ascii/random; 0-1 extension. Oracle: response <= limit -> 202 and the exact bytes at the '
+         'caller; > limit -> 413 RequestEntityTooLarge to the runtime and a Function.ResponseSizeTooLarge JSON naming both sizes to the caller; '
+         'event > limit arrives as exactly the first limit bytes; no process is signalled or relaunched during the whole sequence (the same '
+         'environment keeps serving). Non-trivial: a size within +-2 of the limit in a position other than the last. Later addition: a caller on a '
+         "slow link (128 KiB receive buffer) that has the headers of a large response and reads the body only after the next caller's large, "
+         'different response was served completely: it must still receive its own bytes.',
+ 'assumptions': ['fake process supervisor (DESIGN 3.4)'],
+ 'level_text': 'random search over sizes around the limit in every position of short invocation sequences against the real stack; the boundary '
+               'itself (limit-2 .. limit+2) is hit in most cases by construction.',
+ 'level_note': 'the streaming (direct invoke) response path has its own limit logic and is covered by C17',
+ 'technique': 'property-based testing (rapid): boundary-biased generated sizes, exact expected outcome per size'}
